@@ -4,6 +4,9 @@ import itertools, random
 import gen_seq
 
 INIT = {"e": "Init", "rate": 44100, "chips": 2}
+# leg C: the real converter functions are called directly on the encoded bytes of the preceding Mus / Xmi record and their
+# output is compared by TLC with spec/Mus2Mid.tla / spec/Xmi2Mid.tla
+CVT = {"e": "Cvt"}
 
 # ------------------------------------------------------------------ MUS
 MUS_DELAYS = [0, 0, 0, 0, 1, 1, 2, 5, 10, 35, 70, 127, 128, 129, 300, 1000]
@@ -75,7 +78,23 @@ def mus_score(rng, nev=20, allow_sys=False, allow_odd=False, nchan=None, perc=No
 
 
 def mus_history(score):
-    return [INIT, score, {"e": "Load"}, {"e": "Play"}]
+    return [INIT, score, CVT, {"e": "Load"}, {"e": "Play"}]
+
+
+def mus_malformed_history(rng, nev=8):
+    """leg C only: a generated score whose bytes are cut short and / or overwritten, converted but never loaded: binds the
+    bounds checks, the unknown event types and the controller range checks of the converter model (goto _end -> rejected)"""
+    sc = dict(mus_score(rng, nev, allow_sys=rng.random() < 0.3, allow_odd=True))
+    r = rng.random()
+    if r < 0.55: sc["cut"] = rng.choice([1, 1, 2, 3, 4, 5, 7])
+    if r > 0.4:
+        pk = []
+        for _ in range(rng.choice([1, 1, 2])):
+            v = rng.choice([rng.randrange(256), 0x50 | rng.randrange(16), 0x70 | rng.randrange(16), 0xD0 | rng.randrange(16), 0x80, 0xFF,
+                            0x30 | rng.randrange(16), 0x40 | rng.randrange(16), 15, 14, 0x60, 0xE0])
+            pk.append([rng.randrange(4000), v])
+        sc["poke"] = pk
+    return [INIT, sc, CVT]
 
 
 def mc_mus_alphabet():
@@ -155,7 +174,7 @@ def xmi_file(rng, nsongs=None, nev=14, bank127=False, tempo=None, with_tempo=Tru
 
 def xmi_history(rng, f):
     n = len(f["songs"])
-    h = [INIT, f]
+    h = [INIT, f, CVT]
     s = rng.randrange(n)
     if s or rng.random() < 0.5: h.append({"e": "Select", "n": s})
     h += [{"e": "Load"}, {"e": "Play"}]
